@@ -1,2 +1,29 @@
-import Sqljson
-def main : IO Unit := IO.println "driver"
+import Sqljson.Driver.ExecOps
+/-!
+Driver: one JSON case per input line, one JSON result per output line (`{"id":…,…}`).
+-/
+open Lean (Json)
+open Sqljson
+
+def handle (j : Json) : Json :=
+  let op := (Codec.getStr? j "op").getD ""
+  let body : Json :=
+    if op == "exec" then ExecOps.handleExec j
+    else Json.mkObj [("out", "skip"), ("why", Json.str ("unknown op " ++ op))]
+  let id := (j.getObjVal? "id").toOption.getD Json.null
+  body.setObjVal! "id" id
+
+partial def loop (h : IO.FS.Stream) (out : IO.FS.Stream) : IO Unit := do
+  let line ← h.getLine
+  if line.isEmpty then return ()
+  let t := line.trimAscii.toString
+  if !t.isEmpty then
+    match Json.parse t with
+    | .ok j => out.putStrLn (handle j).compress
+    | .error e => out.putStrLn (Json.mkObj [("out", "skip"), ("why", Json.str ("json: " ++ e))]).compress
+  loop h out
+
+def main : IO Unit := do
+  let stdin ← IO.getStdin
+  let stdout ← IO.getStdout
+  loop stdin stdout
